@@ -416,30 +416,6 @@ func ruleFlushCloses(c *Ctx, rule string, flush, cwe *ssa.Function) {
 		c.unresolvedRoot("(*commandEncoder).flush")
 		return
 	}
-	// helpers of flush that tear the client down on all of their paths
-	closers := map[*ssa.Function]bool{cwe: true}
-	for round := 0; round < 2; round++ {
-		for _, h := range helperClosure(flush, 2) {
-			if h == flush || closers[h] {
-				continue
-			}
-			gf := mustFlow(h, facts{}, func(f facts, i ssa.Instruction) facts {
-				if call, ok := i.(ssa.CallInstruction); ok && closers[staticCallee(call)] {
-					return f.with("closed-client")
-				}
-				return f
-			}, nil)
-			all := len(returnsOf(h)) > 0
-			for _, r := range returnsOf(h) {
-				if f, reach := gf.at(r); reach && !f.has("closed-client") {
-					all = false
-				}
-			}
-			if all {
-				closers[h] = true
-			}
-		}
-	}
 	isRefusalTest := func(v ssa.Value) bool {
 		call, ok := v.(*ssa.Call)
 		if !ok {
@@ -455,6 +431,64 @@ func ruleFlushCloses(c *Ctx, rule string, flush, cwe *ssa.Function) {
 		}
 		return strings.Contains(t.String(), modPath+".Error")
 	}
+	// escapesFrom: a return of fn is reachable from block x without passing a
+	// block that calls a closer — edges on which the error is known to be the
+	// server's refusal excepted
+	var closers map[*ssa.Function]bool
+	escapesFrom := func(fn *ssa.Function, x *ssa.BasicBlock) bool {
+		closes := map[*ssa.BasicBlock]bool{}
+		allInstrs(fn, func(i ssa.Instruction) {
+			if call, ok := i.(ssa.CallInstruction); ok && closers[staticCallee(call)] {
+				if _, isDefer := i.(*ssa.Defer); !isDefer {
+					closes[call.Block()] = true
+				}
+			}
+		})
+		if len(closes) == 0 {
+			return true
+		}
+		seenB := map[*ssa.BasicBlock]bool{}
+		var esc func(x *ssa.BasicBlock) bool
+		esc = func(x *ssa.BasicBlock) bool {
+			if closes[x] || seenB[x] {
+				return false
+			}
+			seenB[x] = true
+			if len(x.Instrs) > 0 {
+				if _, isRet := x.Instrs[len(x.Instrs)-1].(*ssa.Return); isRet {
+					return true
+				}
+			}
+			for k, s2 := range x.Succs {
+				exempt := false
+				for _, a := range edgeAtoms(x, k) {
+					if a.True == 1 && isRefusalTest(a.V) {
+						exempt = true
+					}
+				}
+				if exempt {
+					continue
+				}
+				if esc(s2) {
+					return true
+				}
+			}
+			return false
+		}
+		return esc(x)
+	}
+	// helpers of flush that tear the client down on all of their paths (but the refusal one)
+	closers = map[*ssa.Function]bool{cwe: true}
+	for round := 0; round < 2; round++ {
+		for _, h := range helperClosure(flush, 2) {
+			if h == flush || closers[h] || len(h.Blocks) == 0 {
+				continue
+			}
+			if !escapesFrom(h, h.Blocks[0]) {
+				closers[h] = true
+			}
+		}
+	}
 	okD, found := false, false
 	for _, b := range flush.Blocks {
 		for si := range b.Succs {
@@ -463,44 +497,7 @@ func ruleFlushCloses(c *Ctx, rule string, flush, cwe *ssa.Function) {
 					continue
 				}
 				found = true
-				closes := map[*ssa.BasicBlock]bool{}
-				allInstrs(flush, func(i ssa.Instruction) {
-					if call, ok := i.(ssa.CallInstruction); ok && closers[staticCallee(call)] {
-						if _, isDefer := i.(*ssa.Defer); !isDefer {
-							closes[call.Block()] = true
-						}
-					}
-				})
-				seenB := map[*ssa.BasicBlock]bool{}
-				var escapes func(x *ssa.BasicBlock) bool
-				escapes = func(x *ssa.BasicBlock) bool {
-					if closes[x] || seenB[x] {
-						return false
-					}
-					seenB[x] = true
-					if len(x.Instrs) > 0 {
-						if _, isRet := x.Instrs[len(x.Instrs)-1].(*ssa.Return); isRet {
-							return true
-						}
-					}
-					for k, s2 := range x.Succs {
-						// the edge on which the error is known to be the server's refusal
-						exempt := false
-						for _, a := range edgeAtoms(x, k) {
-							if a.True == 1 && isRefusalTest(a.V) {
-								exempt = true
-							}
-						}
-						if exempt {
-							continue
-						}
-						if escapes(s2) {
-							return true
-						}
-					}
-					return false
-				}
-				okD = len(closes) > 0 && !escapes(b.Succs[si])
+				okD = !escapesFrom(flush, b.Succs[si])
 			}
 		}
 	}
